@@ -1,1 +1,6 @@
 import SoxrModel.Properties.C03
+#print axioms Soxr.Properties.C03.drain_exact
+#print axioms Soxr.Properties.C03.then_none
+#print axioms Soxr.Properties.C03.streaming_counts
+#print axioms Soxr.Properties.C03.total_exact
+#print axioms Soxr.Properties.C03.histories_run
